@@ -149,7 +149,7 @@ def cause_stem(cause):
 
 def execute(plan):
     env = plan['env']
-    w = W.World(plan['seed'], tz=env['tz'], clock0=env['clock0'], clock_mode='frozen', cache=env['cache'])
+    w = W.World(plan['seed'], tz=env['tz'], clock0=env['clock0'], clock_mode='frozen', cache=env['cache'], max_extent=env.get('max_extent'))
     ctx = _Ctx(plan, w)
     ops = plan['ops']
     k = min(plan.get('k', 0), len(ops))
